@@ -1319,6 +1319,10 @@ class CertificateRequest(HelloMessage):
                 # We care only for universal extensions so far
                 ext = TLSExtension().parse(sub_parser)
                 self.extensions.append(ext)
+            if len(set(e.extType for e in self.extensions)) != \
+                    len(self.extensions):
+                raise DecodeError("Duplicate extension in "
+                                  "CertificateRequest")
 
         parser.stopLengthCheck()
         return self
@@ -2002,6 +2006,10 @@ class EncryptedExtensions(HelloMessage):
             p2 = Parser(parser.getVarBytes(2))
             while p2.getRemainingLength():
                 self.extensions.append(TLSExtension(encExt=True).parse(p2))
+            if len(set(e.extType for e in self.extensions)) != \
+                    len(self.extensions):
+                raise DecodeError("Duplicate extension in "
+                                  "EncryptedExtensions")
 
         parser.stopLengthCheck()
         return self
